@@ -11,14 +11,15 @@ CONSTANTS
   Root <- ISqrtSmall
   Advs = {2}
   LagVals = {0, 1, 2}
+  RootVals = {1, 2}
   TokIds = {1, 2}
-  N = 2
+  N = 1
   T0 = 3
   MaxNow = 5
-  MaxOps = 5
+  MaxOps = 4
   Procs = {1, 2}
   Conc = TRUE
   Variant = "nonatomic"
   Emit = FALSE
-INVARIANTS IConservation INonNegative IZeroAtRest Envelope IRanges LockOK OneLogger
+INVARIANTS IConservation INonNegative IZeroAtRest Envelope IRanges LockOK OneLogger IReqConservation IDrawsLaw
 CHECK_DEADLOCK FALSE
